@@ -89,9 +89,9 @@ def gen_target(rng, name, names, mk=False, faults=True):
             outs.append("out/" + rng.choice(NAMES) + ".bin")
         elif r < 0.8:
             outs.append("dir::dist/" + rng.choice(NAMES))
-        elif r < 0.92:
+        elif r < 0.9:
             outs.append("docker::img-" + rng.choice(NAMES))
-        elif f(0.5):
+        elif f(0.7):
             outs.append(rng.choice(["bogus::x", "::x", "file::", "dir::a::b", "FILE::x"]))
         else:
             outs.append("file::plain")
@@ -115,16 +115,17 @@ def gen_target(rng, name, names, mk=False, faults=True):
     r = rng.random()
     if r < 0.15:
         t["bin_output"] = "bin/" + name
-    elif f(0.03):
+    elif f(0.08):
         t["bin_output"] = rng.choice(["dir::bin", "docker::x", "nope::x", "file::bin/x"])
     if rng.random() < 0.15:
         t["checks"] = [[rng.choice(["test -f x", "true"]), rng.choice(["", "ok"])] for _ in range(rng.choice([1, 2]))]
     return t
 
 
-def gen_package(rng, mk=False, faults=True, max_targets=4):
-    n = rng.choice([0, 1, 1, 2, 2, 3, max_targets])
-    names = rng.sample(NAMES, min(n + 2, len(NAMES)))
+def gen_package(rng, mk=False, faults=True, max_targets=4, pool=None):
+    pool = pool or NAMES
+    n = min(rng.choice([0, 1, 1, 2, 2, 3, max_targets]), max(0, len(pool) - 1))
+    names = rng.sample(pool, min(n + 2, len(pool)))
     tnames = names[:n]
     if faults and n >= 2 and rng.random() < 0.06:
         tnames[1] = tnames[0]                       # duplicate target label
@@ -134,7 +135,17 @@ def gen_package(rng, mk=False, faults=True, max_targets=4):
         for _ in range(rng.choice([0, 0, 0, 1, 2])):
             an = rng.choice(names[n:] + (tnames[:1] if faults and rng.random() < 0.08 else []) or ["al"])
             dto["aliases"].append({"name": an, "actual": gen_label(rng, names, 0.03 if faults else 0)})
+    if faults and not mk and rng.random() < 0.05:
+        # a null list entry (JSON null / YAML ~): expressible in JSON and YAML only
+        if dto["targets"] and rng.random() < 0.6:
+            dto["targets"].insert(rng.randrange(len(dto["targets"]) + 1), None)
+        else:
+            dto["aliases"].insert(rng.randrange(len(dto["aliases"]) + 1), None)
     return dto
+
+
+def has_null(dto):
+    return any(t is None for t in dto["targets"]) or any(a is None for a in dto["aliases"])
 
 
 # ----------------------------------------------------------------------------------------------
@@ -146,6 +157,8 @@ def q(s):
 
 
 def _tjson(t):
+    if t is None:
+        return None
     o = {"name": t["name"], "command": t["command"]}
     for k, jk in (("deps", "dependencies"), ("inputs", "inputs"), ("excludes", "exclude_inputs"), ("outputs", "outputs"), ("tags", "tags")):
         if t[k]:
@@ -191,7 +204,9 @@ def _yaml_lines(o, ind):
                 out.append(f"{pad}{k}: {q(v)}")
     else:
         for v in o:
-            if isinstance(v, dict):
+            if v is None:
+                out.append(f"{pad}- ~")
+            elif isinstance(v, dict):
                 sub = _yaml_lines(v, ind + 2)
                 out.append(f"{pad}- {sub[0].lstrip()}")
                 out += sub[1:]
